@@ -86,6 +86,17 @@ func TestDumpRegress(t *testing.T) {
 		{Kind: ItStmt, Text: "MOV AX,1", Cls: "regress"}, {Kind: ItDir, Text: "[BITS 32]"}, {Kind: ItStmt, Text: "MOV EAX,1", Cls: "regress"},
 		{Kind: ItLabel, Name: "qlbl"}, {Kind: ItMarker, Ser: 1, Name: "qlbl"}, {Kind: ItMarker, Ser: 2, Name: "$table"},
 		{Kind: ItStmt, Text: "DD qlbl", Cls: "table", Ref: "qlbl", RefAs: "table"}}}, "all statements encoded in the last BITS mode")
+	// ---- C07
+	write("C07", "fixed-6eb0d51-hlt-5", mkShape(16, "HLT", []string{"imm"}, 0), "operands of a no-operand instruction ignored")
+	write("C07", "fixed-2d62a15-not-ds", mkShape(16, "NOT", []string{"sreg"}, 3), "sreg taken for r16")
+	write("C07", "fixed-2d62a15-add-ds-ax", mkShape(16, "ADD", []string{"sreg", "r16"}, 3), "sreg taken for r16")
+	write("C07", "fixed-4f50d43-db-empty", mkShape(16, "DB", nil, 0), "DB without operands")
+	write("C07", "fixed-b2cac4a-jmp-undef", mkShape(16, "JMP", []string{"undef"}, 0), "undefined branch target")
+	write("C07", "fixed-87c93bb-adc", mkShape(16, "ADC", []string{"r16", "imm"}, 0), "statement dropped silently")
+	write("C07", "fixed-87c93bb-inc", mkShape(32, "INC", []string{"r32"}, 1), "statement dropped silently")
+	write("C07", "fixed-mov-cr-size", mkShape(32, "MOV", []string{"r32", "creg"}, 6), "two-byte opcode counted as one")
+	write("C07", "known-F04-div-cx", mkShape(16, "DIV", []string{"r16"}, 1), "witness of open finding F04")
+	write("C07", "known-F05-mov-mem-imm", mkShape(16, "MOV", []string{"mem", "immneg"}, 3), "witness of open finding F05")
 	// ---- C04
 	write("C04", "fixed-6349371-bwd-125", BranchCase{Mode: 16, Org: -1, Mn: "JMP", Kind: "bwd", Filler: 120}, "rel8 fit tested on the wrong quantity (wrap)")
 	write("C04", "fixed-6349371-bwd-wrap", BranchCase{Mode: 16, Org: -1, Mn: "JNZ", Kind: "bwd", Filler: 121, Trailing: true}, "rel8 wrap")
